@@ -40,6 +40,10 @@ var matrix = []base{
 	{"rm=2&nm=5&np=1&fx=2&policy=input", 2, 3, "maxmsgs wait"},
 	{"idem=1&rm=2&nm=5&np=1&fx=2&policy=input", 2, 3, "idem maxmsgs wait"},
 	{"rm=1&nm=4&parts=0,0,1,0&nb=1&fx=2&policy=input", 2, 3, "maxmsgs wait multi"},
+	// SyncProducer: one SendMessage per message from concurrent goroutines / one SendMessages call
+	{"sync=1&rm=1&nm=3&np=1&policy=input", 3, 4, "sync"},
+	{"sync=2&rm=1&nm=3&parts=0,1,0&nb=1", 3, 4, "sync batch"},
+	{"sync=2&idem=1&rm=1&nm=3&np=1&fm=2&ff=100", 3, 4, "sync idem batch"},
 	{"closeany=1&rm=1&nm=2", 3, 4, "close"},
 	{"closeany=1&idem=1&rm=1&nm=2&fm=2&ff=100", 3, 4, "close idem"},
 }
@@ -48,7 +52,29 @@ var matrix = []base{
 // deviation bound: histories such as "fault, metadata failure at the fin, later a second retry cycle".
 var deep = []base{
 	{"rm=2&nm=3&np=1&df=notleader&mfaults=drop&nogates=1", 5, 7, "deep"},
-	{"idem=1&rm=2&nm=3&np=1&df=timeout-appended&mfaults=drop&nogates=1", 4, 6, "deep idem"},
+	{"idem=1&rm=2&nm=3&np=1&df=timeout-appended,notleader&nogates=1", 4, 6, "deep idem"},
+}
+
+// C04Family: payload x format generation x codec x batch composition x acks, run with the default
+// schedule and every single deviation (input-first policy: batches of several messages and several
+// partitions per request form by themselves).
+func C04Family() []string {
+	var out []string
+	for _, ver := range []string{"0.8.2.0", "0.10.2.0", "0.11.0.0", "2.1.0"} {
+		for _, codec := range []string{"none", "gzip", "snappy", "lz4", "zstd"} {
+			if codec == "zstd" && ver != "2.1.0" {
+				continue
+			}
+			for _, parts := range []string{"0,0,0", "0,1,0,1", "0,1,1,0,0"} {
+				for _, acks := range []string{"1", "-1"} {
+					for _, fm := range []string{"0", "3"} {
+						out = append(out, "prod?ver="+ver+"&codec="+codec+"&kv=1&rm=1&nb=1&parts="+parts+"&acks="+acks+"&fm="+fm+"&ff=100&policy=input&faults=notleader,timeout-appended,drop-appended&gates="+Gates)
+					}
+				}
+			}
+		}
+	}
+	return out
 }
 
 // Scenarios returns the producer scenario list judged for one property.
